@@ -57,7 +57,6 @@ pub struct Call {
     pub answer: Option<std::rc::Rc<Answer>>,
 }
 
-#[derive(Debug)]
 pub struct ScriptDriver<'s, const OV: bool> {
     /// real signals the driver can name in its answers
     pub known: Vec<dtr::Signal>,
@@ -75,6 +74,13 @@ pub struct ScriptDriver<'s, const OV: bool> {
     /// storage the returned entries point into; it is re-used for every answer (entry i of
     /// every answer lives at the same address), as a driver with a fixed buffer would do
     pub slots: Vec<dtr::Signal>,
+}
+
+/// The driver is part of the iterator's derived Debug (the state key): it must not contribute
+impl<'s, const OV: bool> std::fmt::Debug for ScriptDriver<'s, OV> {
+    fn fmt(&self, f: &mut std::fmt::Formatter<'_>) -> std::fmt::Result {
+        write!(f, "ScriptDriver")
+    }
 }
 
 impl<'s, const OV: bool> ScriptDriver<'s, OV> {
